@@ -720,7 +720,7 @@ PROPS = {
     },
     "C07": {
         "module": "DnsModel.Theorems.C07",
-        "theorems": ["Dns.C07.rename_spec", "Dns.C07.rename_self", "Dns.replaceRaw_spec", "Dns.rename_record", "Dns.C07.source_reader_tie"],
+        "theorems": ["Dns.C07.rename_spec", "Dns.C07.rename_self", "Dns.replaceRaw_spec", "Dns.rename_record", "Dns.C07.source_reader_tie", "Dns.C07.source_replace_raw"],
         "families": [{"name": "rename-families", "quick": 0, "thorough": 0, "fixed": True}, {"name": "rename-misaligned", "quick": 0, "thorough": 0, "fixed": True}, {"name": "rename-script", "quick": 0, "thorough": 0, "fixed": True}, {"name": "rename-boundary", "quick": 0, "thorough": 0, "fixed": True}, {"name": "rename", "quick": 1500, "thorough": 75000}],
         "oracle": oracle_c07x,
         "nontrivial": lambda c, a: a.startswith("ok") or a.startswith("err"),
@@ -731,7 +731,7 @@ PROPS = {
         "assumptions": ["the theorem is about Renamer::rename_with_raw_names; the ParsedPacket wrapper re-parses its result (accepted by the theorem) and asserts the EDNS summary is unchanged - that assert is covered by correspondence (C08 scripts), not by this theorem"],
     },
     "C08": {
-        "module": "DnsModel.Theorems.C08Seq", "theorems": ["Dns.C08.run_total", "Dns.C08.step_total", "Dns.C08.run_inv", "Dns.C08.step_inv", "Dns.C08.inv_start", "Dns.C08.consistent_view", "Dns.C08.consistent_counts", "Dns.C08.after_decompression", "Dns.C08.recompute_consistent", "Dns.C08.iter_uncompress_consistent", "Dns.C08.first_touch_consistent", "Dns.C08.insert_answer_consistent", "Dns.C08.insert_authority_consistent", "Dns.C08.insert_additional_consistent", "Dns.C08.delete_consistent", "Dns.C08.set_ttl_consistent", "Dns.C08.set_ip_consistent", "Dns.C08.set_name_consistent", "Dns.C08.header_consistent", "Dns.C08.rename_fresh", "Dns.C08.question_read", "Dns.C08.PlainObj.pointerFree", "Dns.EdnsOK.matches_parse", "Dns.PlainObj.parse_info", "Dns.ednsOf_of_run", "Dns.ednsOK_replace", "Dns.ednsOK_remove", "Dns.ednsOK_remove_opt"],
+        "module": "DnsModel.Theorems.C08Seq", "theorems": ["Dns.C08.run_total", "Dns.C08.step_total", "Dns.C08.run_inv", "Dns.C08.step_inv", "Dns.C08.inv_start", "Dns.C08.consistent_view", "Dns.C08.consistent_counts", "Dns.C08.after_decompression", "Dns.C08.recompute_consistent", "Dns.C08.iter_uncompress_consistent", "Dns.C08.first_touch_consistent", "Dns.C08.insert_answer_consistent", "Dns.C08.insert_authority_consistent", "Dns.C08.insert_additional_consistent", "Dns.C08.delete_consistent", "Dns.C08.set_ttl_consistent", "Dns.C08.set_ip_consistent", "Dns.C08.set_name_consistent", "Dns.C08.header_consistent", "Dns.C08.rename_fresh", "Dns.C08.question_read", "Dns.C08.PlainObj.pointerFree", "Dns.EdnsOK.matches_parse", "Dns.PlainObj.parse_info", "Dns.ednsOf_of_run", "Dns.ednsOK_replace", "Dns.ednsOK_remove", "Dns.ednsOK_remove_opt", "Dns.C08.source_counts_tie"],
         "families": [{"name": "script-boundary", "quick": 0, "thorough": 0, "fixed": True}, {"name": "rename-script", "quick": 0, "thorough": 0, "fixed": True}, {"name": "script-rawinsert", "quick": 0, "thorough": 0, "fixed": True}, {"name": "script", "quick": 2500, "thorough": 100000}],
         "oracle": oracle_c08, "nontrivial": nontrivial_script, "shrink": False,
         "rule": "scripts of 1-6 macro operations (open/advance/act/observe/advance, header setters, text insertion, question insertion, rename, recompute, cache reads) over accepted packets in 4 layouts with/without OPT and over empty(); state observed after every operation; non-trivial = distinct scripts with at least one successful mutating operation",
@@ -742,7 +742,7 @@ PROPS = {
                         "excluded by hypothesis (known findings, by design): question insertion/deletion (KF1, KF4), OPT as the target of set-name/set-TTL (KF5), clearing QR with answers present (KF3); in-place setters on a still-compressed object (KF2) are covered by the script correspondence only"],
     },
     "C09": {
-        "module": "DnsModel.Theorems.C09", "theorems": ["Dns.C09.insert_exact_answer", "Dns.C09.insert_exact_authority", "Dns.C09.insert_exact_additional", "Dns.C09.delete_exact", "Dns.C09.set_ttl_exact", "Dns.C09.set_ip_exact", "Dns.C09.set_name_exact", "Dns.C09.header_exact", "Dns.C09.first_touch", "Dns.C09.set_name_flagged", "Dns.C09.delete_flagged", "Dns.PlainObj.replace_at", "Dns.resize_write", "Dns.piece_shape"],
+        "module": "DnsModel.Theorems.C09", "theorems": ["Dns.C09.insert_exact_answer", "Dns.C09.insert_exact_authority", "Dns.C09.insert_exact_additional", "Dns.C09.delete_exact", "Dns.C09.set_ttl_exact", "Dns.C09.set_ip_exact", "Dns.C09.set_name_exact", "Dns.C09.header_exact", "Dns.C09.first_touch", "Dns.C09.set_name_flagged", "Dns.C09.delete_flagged", "Dns.PlainObj.replace_at", "Dns.resize_write", "Dns.piece_shape", "Dns.C09.source_counts_tie"],
         "families": [{"name": "script-boundary", "quick": 0, "thorough": 0, "fixed": True}, {"name": "script-refusals", "quick": 0, "thorough": 0, "fixed": True}, {"name": "script-rawinsert", "quick": 0, "thorough": 0, "fixed": True}, {"name": "script", "quick": 2500, "thorough": 100000}],
         "oracle": oracle_c09, "nontrivial": nontrivial_script, "shrink": False,
         "rule": "same scripts as C08; after every operation the decoded message is compared with the message before plus exactly the specified change",
@@ -753,7 +753,7 @@ PROPS = {
                         "excluded by hypothesis (known findings, by design): OPT as the target of set-name/set-TTL (KF5), delete/insert on the question (KF1, KF4), clearing QR with answers present (KF3); in-place setters on a still-compressed object (KF2) and rename/recompute at object level are covered by C07 / C08.rename_fresh and the script correspondence"],
     },
     "C10": {
-        "module": "DnsModel.Theorems.C10", "theorems": ["Dns.C10.insert_size_limit", "Dns.C10.insert_failure_plain", "Dns.C10.insert_too_large", "Dns.C10.delete_void_unchanged", "Dns.C10.set_name_invalid", "Dns.C10.set_name_arg_total", "Dns.C10.set_name_void", "Dns.C10.set_ip_failure", "Dns.C10.rename_failure", "Dns.C10.set_name_too_large"],
+        "module": "DnsModel.Theorems.C10", "theorems": ["Dns.C10.insert_size_limit", "Dns.C10.insert_failure_plain", "Dns.C10.insert_too_large", "Dns.C10.delete_void_unchanged", "Dns.C10.set_name_invalid", "Dns.C10.set_name_arg_total", "Dns.C10.set_name_void", "Dns.C10.set_ip_failure", "Dns.C10.rename_failure", "Dns.C10.set_name_too_large", "Dns.C10.source_counts_tie"],
         "families": [{"name": "script-big", "quick": 0, "thorough": 0, "fixed": True}, {"name": "script-rawinsert", "quick": 0, "thorough": 0, "fixed": True}, {"name": "script-fail", "quick": 2500, "thorough": 100000}, {"name": "script", "quick": 500, "thorough": 20000}],
         "oracle": oracle_c10, "nontrivial": lambda c, a: "err:" in a, "shrink": False,
         "rule": "scripts biased to failing arguments (ill-formed / over-long names, tombstone cursors, malformed and out-of-range record texts, second question, overflowing renames), exact-limit sweeps (8192 +- for insertions, also on packets whose OPT advertises 512..65535 bytes; 65535 +- for owner growth); non-trivial = distinct scripts in which at least one operation failed",
@@ -763,7 +763,7 @@ PROPS = {
         "assumptions": ["partial: not covered by a theorem (script correspondence only): malformed record text at the object API (refused by synthesis, C13.excluded_is_error, before insertion is attempted), failing insertion into a still-compressed object (decompressed first: bytes change, decoded message does not)"],
     },
     "C11": {
-        "module": "DnsModel.Theorems.C11", "theorems": ["Dns.C11.walk_delete", "Dns.C11.second_delete", "Dns.C11.delete_void_untouched", "Dns.C11.emptied_absent", "Dns.C11.still_accepted", "Dns.C11.plain_of_accepted", "Dns.C11.first_delete", "Dns.C11.walk_delete_parsed", "Dns.C11.walk_delete_skipping_opt", "Dns.C11.walk_delete_parsed_skipping_opt", "Dns.C11.opt_once", "Dns.delWalkSkip_fresh_refines", "Dns.delWalkSkip_refines", "Dns.delWalk_refines", "Dns.delWalk_fresh_refines", "Dns.PlainObj.delete_at", "Dns.absWalk_terminates", "Dns.absWalk_sublist", "Dns.absWalk_deleted_gone", "Dns.absWalk_yields_survivors", "Dns.absWalk_perm"],
+        "module": "DnsModel.Theorems.C11", "theorems": ["Dns.C11.walk_delete", "Dns.C11.second_delete", "Dns.C11.delete_void_untouched", "Dns.C11.emptied_absent", "Dns.C11.still_accepted", "Dns.C11.plain_of_accepted", "Dns.C11.first_delete", "Dns.C11.walk_delete_parsed", "Dns.C11.walk_delete_skipping_opt", "Dns.C11.walk_delete_parsed_skipping_opt", "Dns.C11.opt_once", "Dns.delWalkSkip_fresh_refines", "Dns.delWalkSkip_refines", "Dns.delWalk_refines", "Dns.delWalk_fresh_refines", "Dns.PlainObj.delete_at", "Dns.absWalk_terminates", "Dns.absWalk_sublist", "Dns.absWalk_deleted_gone", "Dns.absWalk_yields_survivors", "Dns.absWalk_perm", "Dns.C11.source_counts_tie"],
         "families": [{"name": "delete-walks", "quick": 0, "thorough": 0, "fixed": True}, {"name": "walk-huge-quick", "quick": 0, "thorough": 0, "fixed": True, "only": "quick"}, {"name": "walk-huge-full", "quick": 0, "thorough": 0, "fixed": True, "only": "thorough"}],
         "oracle": oracle_c11, "nontrivial": lambda c, a: "delete" in c, "shrink": False,
         "rule": "every subset of the records of a section of size 0..5 deleted from within one walk, for the three record sections and the question, pointer-free and compressed, OPT absent/first/last; walks over all four sections in one script in all 24 orders (question deleted first / last / in between), a question-less packet built from empty(); exhaustive in both tiers; plus sections of 32767..65535 records (run on the real code, judged by the oracle alone: too large for the list-based model)",
@@ -773,7 +773,7 @@ PROPS = {
         "assumptions": ["the run started on a freshly parsed (possibly compressed) packet is walk_delete_parsed: untouched until the first deletion, which decompresses and removes exactly the record under the cursor, then as on a plain object; the public next() walk over an additional section that holds an OPT record is walk_delete_skipping_opt (the walker sees the other records, OPT stays where it was); the same walk started on a freshly parsed (possibly compressed) packet is walk_delete_parsed_skipping_opt (at most one OPT: opt_once); partial: the question section (KF1: by design its deletion leaves a packet parse() rejects) is covered by the exhaustive correspondence walks only"],
     },
     "C13": {
-        "module": "DnsModel.Theorems.C13", "theorems": ["Dns.C13.synth_total", "Dns.C13.rawNameFromStr_total", "Dns.C13.grammar_iff", "Dns.C13.excluded_is_error", "Dns.C13.wellformed", "Dns.C13.synth_piece", "Dns.C13.insert_accepted"],
+        "module": "DnsModel.Theorems.C13", "theorems": ["Dns.C13.synth_total", "Dns.C13.rawNameFromStr_total", "Dns.C13.grammar_iff", "Dns.C13.excluded_is_error", "Dns.C13.wellformed", "Dns.C13.synth_piece", "Dns.C13.insert_accepted", "Dns.C13.source_from_text"],
         "families": [{"name": "synth-limits", "quick": 0, "thorough": 0, "fixed": True}, {"name": "synth", "quick": 6000, "thorough": 400000}, {"name": "synth-insert", "quick": 1200, "thorough": 40000}],
         "oracle": oracle_c13, "nontrivial": lambda c, a: a.startswith("ok") or " ok b=" in a, "shrink": False,
         "rule": "record texts: 60% grammar-derived over the nine types with boundary values (TTL 0/2^32-1/2^32, 62/63-byte labels, 253/254-byte names, TXT 255/256/3825/3826 bytes and escapes, preference 65535/65536, digests of even/odd/zero length, 14 IPv6 forms), 30% single-token damage, 10% arbitrary bytes; plus insertion of the synthesised record into a valid response; non-trivial = distinct texts that synthesise",
@@ -786,7 +786,7 @@ PROPS = {
         "module": "DnsModel.Theorems.C14",
         "theorems": ["Dns.C14.from_text_sound", "Dns.C14.from_text_complete", "Dns.C14.textLabel_of_ldh", "Dns.C14.rejects_long_text",
                      "Dns.C14.rejects_empty_label", "Dns.C14.rejects_leading_dot", "Dns.C14.rejects_long_label", "Dns.C14.never_longer",
-                     "Dns.C14.wire_wellformed", "Dns.C14.reads_back", "Dns.C14.with_zone"],
+                     "Dns.C14.wire_wellformed", "Dns.C14.reads_back", "Dns.C14.with_zone", "Dns.C14.source_from_text"],
         "families": [{"name": "name2raw", "quick": 4, "thorough": 6, "fixed": True}],
         "oracle": oracle_c14, "nontrivial": lambda c, a: a.startswith("ok"), "shrink": False,
         "rule": "all strings over {a,B,0,-,_,.,0x80} up to length 4 (quick) / 6 (thorough), each with and without a default zone, plus label lengths 60..65 and text lengths 245..258, forbidden bytes; each accepted name is also given to a record and read back",
